@@ -275,6 +275,250 @@ pub proof fn lemma_de_row<R: Registry>(vx_pre: Seq<Option<Slot<R>>>, vx_new: Seq
                 }
 
 }
+
+// ---- C06/C11: exact characterisation of the inputs from_serialized_parts accepts
+pub open spec fn vx_row_in<R: Registry>(m: IMap<archetype::IdentifierRef<R>, archetype::Archetype<R>>, k: archetype::IdentifierRef<R>, r: int) -> bool {
+    m.dom().contains(k) && 0 <= r < m[k].length
+}
+/// slot `s` is named by a free entry or by a stored row
+pub open spec fn vx_covered<R: Registry>(s: int, fr: Seq<entity::Identifier>, m: IMap<archetype::IdentifierRef<R>, archetype::Archetype<R>>) -> bool {
+    ||| exists|j: int| 0 <= j < fr.len() && (#[trigger] fr[j]).index == s
+    ||| exists|k: archetype::IdentifierRef<R>, r: int| vx_row_in(m, k, r) && (#[trigger] m[k].ids()[r]).index == s
+}
+pub open spec fn vx_valid_a(length: int, fr: Seq<entity::Identifier>) -> bool { forall|j: int| 0 <= j < fr.len() ==> (#[trigger] fr[j]).index < length }
+pub open spec fn vx_valid_b(fr: Seq<entity::Identifier>) -> bool { forall|a: int, b: int| 0 <= a < b < fr.len() ==> (#[trigger] fr[a]).index != (#[trigger] fr[b]).index }
+pub open spec fn vx_valid_c<R: Registry>(length: int, m: IMap<archetype::IdentifierRef<R>, archetype::Archetype<R>>) -> bool {
+    forall|k: archetype::IdentifierRef<R>, r: int| vx_row_in(m, k, r) ==> (#[trigger] m[k].ids()[r]).index < length
+}
+pub open spec fn vx_valid_d<R: Registry>(m: IMap<archetype::IdentifierRef<R>, archetype::Archetype<R>>) -> bool {
+    forall|k1: archetype::IdentifierRef<R>, r1: int, k2: archetype::IdentifierRef<R>, r2: int|
+        vx_row_in(m, k1, r1) && vx_row_in(m, k2, r2) && (k1 != k2 || r1 != r2) ==> (#[trigger] m[k1].ids()[r1]).index != (#[trigger] m[k2].ids()[r2]).index
+}
+pub open spec fn vx_valid_e<R: Registry>(fr: Seq<entity::Identifier>, m: IMap<archetype::IdentifierRef<R>, archetype::Archetype<R>>) -> bool {
+    forall|j: int, k: archetype::IdentifierRef<R>, r: int| 0 <= j < fr.len() && vx_row_in(m, k, r) ==> (#[trigger] fr[j]).index != (#[trigger] m[k].ids()[r]).index
+}
+pub open spec fn vx_valid_f<R: Registry>(length: int, fr: Seq<entity::Identifier>, m: IMap<archetype::IdentifierRef<R>, archetype::Archetype<R>>) -> bool {
+    forall|s: int| 0 <= s < length ==> #[trigger] vx_covered(s, fr, m)
+}
+/// the serialized (length, free list) and the table set describe one allocator: every index
+/// 0..length is named exactly once, by a free entry or by a stored row
+#[verifier::opaque]
+pub open spec fn vx_valid_parts<R: Registry>(length: int, fr: Seq<entity::Identifier>, m: IMap<archetype::IdentifierRef<R>, archetype::Archetype<R>>) -> bool {
+    vx_valid_a(length, fr) && vx_valid_b(fr) && vx_valid_c(length, m) && vx_valid_d(m) && vx_valid_e(fr, m) && vx_valid_f(length, fr, m)
+}
+/// the free list as `Serialize for Allocator` writes it: (index, generation of that slot), in order
+pub open spec fn vx_ser_free<R: Registry>(a: Allocator<R>) -> Seq<entity::Identifier> {
+    Seq::new(a.free@.len(), |j: int| entity::Identifier { index: a.free@[j], generation: a.slots@[a.free@[j] as int].generation })
+}
+/// C06: what a well-formed world serializes is accepted (allocator leg): the parts of any
+/// allocator that satisfies the world invariant with a table set are valid -- also for any other
+/// table set with the same identifier columns (validity only reads `ids()`)
+pub proof fn lemma_wf_world_parts_valid<R: Registry>(a: Allocator<R>, m: IMap<archetype::IdentifierRef<R>, archetype::Archetype<R>>)
+    requires a.wf(), forall|k: archetype::IdentifierRef<R>| m.dom().contains(k) ==> (#[trigger] m[k]).agrees(&a) && m[k].key() == k, vx_de_ids_stored(m, &a),
+    ensures vx_valid_parts(a.slots@.len() as int, vx_ser_free(a), m)
+{ reveal(vx_valid_parts);
+    let fr = vx_ser_free(a);
+    let length = a.slots@.len() as int;
+    a.lemma_slots_len_fits();
+    assert(vx_valid_a(length, fr));
+    assert(vx_valid_b(fr));
+    assert(vx_valid_c(length, m)) by {
+        assert forall|k: archetype::IdentifierRef<R>, r: int| vx_row_in(m, k, r) implies (#[trigger] m[k].ids()[r]).index < length by { assert(m[k].agrees(&a)); }
+    }
+    assert(vx_valid_d(m)) by {
+        assert forall|k1: archetype::IdentifierRef<R>, r1: int, k2: archetype::IdentifierRef<R>, r2: int|
+            vx_row_in(m, k1, r1) && vx_row_in(m, k2, r2) && (k1 != k2 || r1 != r2) implies (#[trigger] m[k1].ids()[r1]).index != (#[trigger] m[k2].ids()[r2]).index by {
+            assert(m[k1].agrees(&a)); assert(m[k2].agrees(&a));
+            let i1 = m[k1].ids()[r1]; let i2 = m[k2].ids()[r2];
+            if i1.index == i2.index {
+                assert(i1.generation == i2.generation);
+                assert(i1 == i2);
+                assert(a.view()[i1] == (Location { identifier: k1, index: r1 as usize }));
+                assert(a.view()[i2] == (Location { identifier: k2, index: r2 as usize }));
+            }
+        }
+    }
+    assert(vx_valid_e(fr, m)) by {
+        assert forall|j: int, k: archetype::IdentifierRef<R>, r: int| 0 <= j < fr.len() && vx_row_in(m, k, r) implies (#[trigger] fr[j]).index != (#[trigger] m[k].ids()[r]).index by {
+            assert(m[k].agrees(&a));
+            assert(a.slots@[a.free@[j] as int].location is None);
+        }
+    }
+    assert(vx_valid_f(length, fr, m)) by {
+        assert forall|s: int| 0 <= s < length implies #[trigger] vx_covered(s, fr, m) by {
+            if a.slots@[s].location is None {
+                assert(a.free@.contains(s as usize));
+                let j = choose|j: int| 0 <= j < a.free@.len() && a.free@[j] == s as usize;
+                assert(fr[j].index == s);
+            } else {
+                let id = entity::Identifier { index: s as usize, generation: a.slots@[s].generation };
+                assert(a.resolves(id));
+                let l = a.view()[id];
+                assert(vx_row_in(m, l.identifier, l.index as int) && m[l.identifier].ids()[l.index as int].index == s);
+            }
+        }
+    }
+}
+
+/// validity only reads the identifier columns: it carries over to any other table set that holds
+/// the same columns under other (pairwise distinct) keys -- e.g. the tables a deserializer rebuilt
+pub proof fn lemma_valid_rekey<R: Registry>(length: int, fr: Seq<entity::Identifier>,
+    m: IMap<archetype::IdentifierRef<R>, archetype::Archetype<R>>, m2: IMap<archetype::IdentifierRef<R>, archetype::Archetype<R>>,
+    f: IMap<archetype::IdentifierRef<R>, archetype::IdentifierRef<R>>)
+    requires
+        vx_valid_parts(length, fr, m),
+        forall|k: archetype::IdentifierRef<R>| m.dom().contains(k) ==> m2.dom().contains(#[trigger] f[k]) && m2[f[k]].ids() == m[k].ids() && m2[f[k]].length == m[k].length,
+        forall|k2: archetype::IdentifierRef<R>| m2.dom().contains(k2) ==> exists|k: archetype::IdentifierRef<R>| m.dom().contains(k) && #[trigger] f[k] == k2,
+        forall|k1: archetype::IdentifierRef<R>, k2: archetype::IdentifierRef<R>| m.dom().contains(k1) && m.dom().contains(k2) && #[trigger] f[k1] == #[trigger] f[k2] ==> k1 == k2,
+    ensures vx_valid_parts(length, fr, m2)
+{
+    reveal(vx_valid_parts);
+    let pre = |k2: archetype::IdentifierRef<R>| choose|k: archetype::IdentifierRef<R>| m.dom().contains(k) && #[trigger] f[k] == k2;
+    assert forall|k2: archetype::IdentifierRef<R>, r: int| vx_row_in(m2, k2, r) implies vx_row_in(m, pre(k2), r) && m[pre(k2)].ids()[r] == (#[trigger] m2[k2].ids()[r]) by {
+        let k = pre(k2);
+        assert(m.dom().contains(k) && f[k] == k2);
+    }
+    assert(vx_valid_c(length, m2)) by {
+        assert forall|k2: archetype::IdentifierRef<R>, r: int| vx_row_in(m2, k2, r) implies (#[trigger] m2[k2].ids()[r]).index < length by {
+            assert(vx_row_in(m, pre(k2), r));
+            assert(m[pre(k2)].ids()[r].index < length);
+        }
+    }
+    assert(vx_valid_d(m2)) by {
+        assert forall|k1: archetype::IdentifierRef<R>, r1: int, k2: archetype::IdentifierRef<R>, r2: int|
+            vx_row_in(m2, k1, r1) && vx_row_in(m2, k2, r2) && (k1 != k2 || r1 != r2) implies (#[trigger] m2[k1].ids()[r1]).index != (#[trigger] m2[k2].ids()[r2]).index by {
+            let p1 = pre(k1); let p2 = pre(k2);
+            assert(vx_row_in(m, p1, r1) && vx_row_in(m, p2, r2));
+            assert(f[p1] == k1 && f[p2] == k2);
+            assert(p1 != p2 || r1 != r2);
+            assert(m[p1].ids()[r1].index != m[p2].ids()[r2].index);
+        }
+    }
+    assert(vx_valid_e(fr, m2)) by {
+        assert forall|j: int, k2: archetype::IdentifierRef<R>, r: int| 0 <= j < fr.len() && vx_row_in(m2, k2, r) implies (#[trigger] fr[j]).index != (#[trigger] m2[k2].ids()[r]).index by {
+            assert(vx_row_in(m, pre(k2), r));
+            assert(fr[j].index != m[pre(k2)].ids()[r].index);
+        }
+    }
+    assert(vx_valid_f(length, fr, m2)) by {
+        assert forall|s: int| 0 <= s < length implies #[trigger] vx_covered(s, fr, m2) by {
+            assert(vx_covered(s, fr, m));
+            if !(exists|j: int| 0 <= j < fr.len() && (#[trigger] fr[j]).index == s) {
+                let (k, r) = choose|k: archetype::IdentifierRef<R>, r: int| vx_row_in(m, k, r) && (#[trigger] m[k].ids()[r]).index == s;
+                assert(vx_row_in(m2, f[k], r) && m2[f[k]].ids()[r].index == s);
+            }
+        }
+    }
+}
+// ---- every error exit contradicts validity
+pub proof fn lemma_site_free_oob<R: Registry>(length: int, fr: Seq<entity::Identifier>, m: IMap<archetype::IdentifierRef<R>, archetype::Archetype<R>>, j: int)
+    requires 0 <= j < fr.len(), fr[j].index >= length,
+    ensures !vx_valid_parts(length, fr, m)
+{ reveal(vx_valid_parts); if vx_valid_a(length, fr) { assert(fr[j].index < length); } }
+pub proof fn lemma_site_free_dup<R: Registry>(length: int, fr: Seq<entity::Identifier>, m: IMap<archetype::IdentifierRef<R>, archetype::Archetype<R>>, j: int, sl: Seq<Option<Slot<R>>>)
+    requires 0 <= j < fr.len(), fr[j].index < sl.len(), sl[fr[j].index as int] is Some,
+             forall|s: int| 0 <= s < sl.len() && (#[trigger] sl[s]) is Some ==> (exists|j2: int| 0 <= j2 < j && (#[trigger] fr[j2]).index == s),
+    ensures !vx_valid_parts(length, fr, m)
+{ reveal(vx_valid_parts);
+    let j2 = choose|j2: int| 0 <= j2 < j && (#[trigger] fr[j2]).index == fr[j].index as int;
+    if vx_valid_b(fr) { assert(fr[j2].index != fr[j].index); }
+}
+pub proof fn lemma_site_row_oob<R: Registry>(length: int, fr: Seq<entity::Identifier>, m: IMap<archetype::IdentifierRef<R>, archetype::Archetype<R>>, k: archetype::IdentifierRef<R>, r: int)
+    requires vx_row_in(m, k, r), m[k].ids()[r].index >= length,
+    ensures !vx_valid_parts(length, fr, m)
+{ reveal(vx_valid_parts); if vx_valid_c(length, m) { assert(m[k].ids()[r].index < length); } }
+pub proof fn lemma_site_row_dup<R: Registry>(length: int, fr: Seq<entity::Identifier>, m: IMap<archetype::IdentifierRef<R>, archetype::Archetype<R>>,
+    keys: Seq<archetype::IdentifierRef<R>>, t: int, r: int)
+    requires vx_enum(m, keys), 0 <= t < keys.len(), 0 <= r < m[keys[t]].length,
+             vx_claimed_by(m[keys[t]].ids()[r].index as int, fr, fr.len() as int, m, keys, t, r),
+    ensures !vx_valid_parts(length, fr, m)
+{ reveal(vx_valid_parts);
+    let s = m[keys[t]].ids()[r].index as int;
+    assert(keys.contains(keys[t]));
+    assert(vx_row_in(m, keys[t], r));
+    if exists|j: int| 0 <= j < fr.len() && (#[trigger] fr[j]).index == s {
+        let j = choose|j: int| 0 <= j < fr.len() && (#[trigger] fr[j]).index == s;
+        if vx_valid_e(fr, m) { assert(fr[j].index != m[keys[t]].ids()[r].index); }
+    } else if exists|j: int, q: int| 0 <= j < t && 0 <= q < m[keys[j]].length && (#[trigger] m[keys[j]].ids()[q]).index == s {
+        let (j, q) = choose|j: int, q: int| 0 <= j < t && 0 <= q < m[keys[j]].length && (#[trigger] m[keys[j]].ids()[q]).index == s;
+        assert(keys.contains(keys[j]));
+        assert(vx_row_in(m, keys[j], q));
+        assert(keys[j] != keys[t]);
+        if vx_valid_d(m) { assert(m[keys[j]].ids()[q].index != m[keys[t]].ids()[r].index); }
+    } else {
+        let q = choose|q: int| 0 <= q < r && t < keys.len() && (#[trigger] m[keys[t]].ids()[q]).index == s;
+        assert(vx_row_in(m, keys[t], q));
+        if vx_valid_d(m) { assert(m[keys[t]].ids()[q].index != m[keys[t]].ids()[r].index); }
+    }
+}
+pub proof fn lemma_site_missing<R: Registry>(length: int, fr: Seq<entity::Identifier>, m: IMap<archetype::IdentifierRef<R>, archetype::Archetype<R>>,
+    keys: Seq<archetype::IdentifierRef<R>>, sl: Seq<Option<Slot<R>>>, s: int)
+    requires vx_enum(m, keys), sl.len() == length, 0 <= s < length, sl[s] is None,
+             vx_free_claimed(sl, fr, fr.len() as int),
+             forall|j: int| 0 <= j < keys.len() ==> vx_rows_claimed(sl, #[trigger] m[keys[j]], keys[j], m[keys[j]].length as int),
+    ensures !vx_valid_parts(length, fr, m)
+{ reveal(vx_valid_parts);
+    if vx_valid_f(length, fr, m) {
+        assert(vx_covered(s, fr, m));
+        if exists|j: int| 0 <= j < fr.len() && (#[trigger] fr[j]).index == s {
+            let j = choose|j: int| 0 <= j < fr.len() && (#[trigger] fr[j]).index == s;
+            assert(sl[fr[j].index as int] == vx_free_slot::<R>(fr[j]));
+        } else {
+            let (k, r) = choose|k: archetype::IdentifierRef<R>, r: int| vx_row_in(m, k, r) && (#[trigger] m[k].ids()[r]).index == s;
+            assert(keys.contains(k));
+            let j = choose|j: int| 0 <= j < keys.len() && keys[j] == k;
+            assert(vx_rows_claimed(sl, m[keys[j]], keys[j], m[keys[j]].length as int));
+            assert(sl[m[k].ids()[r].index as int] == vx_row_slot(m[k], k, r));
+        }
+    }
+}
+/// and an accepted input is valid
+pub proof fn lemma_ok_parts_valid<R: Registry>(sl: Seq<Option<Slot<R>>>, fr: Seq<entity::Identifier>,
+    m: IMap<archetype::IdentifierRef<R>, archetype::Archetype<R>>, keys: Seq<archetype::IdentifierRef<R>>)
+    requires
+        vx_enum(m, keys),
+        vx_free_claimed(sl, fr, fr.len() as int),
+        forall|j: int| 0 <= j < keys.len() ==> vx_rows_claimed(sl, #[trigger] m[keys[j]], keys[j], m[keys[j]].length as int),
+        forall|s: int| 0 <= s < sl.len() && (#[trigger] sl[s]) is Some ==> vx_claimed_by(s, fr, fr.len() as int, m, keys, keys.len() as int, 0),
+        forall|s: int| 0 <= s < sl.len() ==> (#[trigger] sl[s]) is Some,
+    ensures vx_valid_parts(sl.len() as int, fr, m)
+{ reveal(vx_valid_parts);
+    let length = sl.len() as int;
+    assert forall|k: archetype::IdentifierRef<R>, r: int| vx_row_in(m, k, r) implies (#[trigger] m[k].ids()[r]).index < length && sl[m[k].ids()[r].index as int] == vx_row_slot(m[k], k, r) by {
+        assert(keys.contains(k));
+        let j = choose|j: int| 0 <= j < keys.len() && keys[j] == k;
+        assert(vx_rows_claimed(sl, m[keys[j]], keys[j], m[keys[j]].length as int));
+    }
+    assert(vx_valid_a(length, fr));
+    assert(vx_valid_b(fr));
+    assert(vx_valid_c(length, m));
+    assert(vx_valid_d(m)) by {
+        assert forall|k1: archetype::IdentifierRef<R>, r1: int, k2: archetype::IdentifierRef<R>, r2: int|
+            vx_row_in(m, k1, r1) && vx_row_in(m, k2, r2) && (k1 != k2 || r1 != r2) implies (#[trigger] m[k1].ids()[r1]).index != (#[trigger] m[k2].ids()[r2]).index by {
+            if m[k1].ids()[r1].index == m[k2].ids()[r2].index {
+                assert(vx_row_slot(m[k1], k1, r1) == vx_row_slot(m[k2], k2, r2));
+                assert(vx_row_slot(m[k1], k1, r1)->0.location->0.identifier == k1);
+                assert(vx_row_slot(m[k1], k1, r1)->0.location->0.index == r1 as usize);
+            }
+        }
+    }
+    assert(vx_valid_e(fr, m)) by {
+        assert forall|j: int, k: archetype::IdentifierRef<R>, r: int| 0 <= j < fr.len() && vx_row_in(m, k, r) implies (#[trigger] fr[j]).index != (#[trigger] m[k].ids()[r]).index by {
+            assert(sl[fr[j].index as int] == vx_free_slot::<R>(fr[j]));
+        }
+    }
+    assert(vx_valid_f(length, fr, m)) by {
+        assert forall|s: int| 0 <= s < length implies #[trigger] vx_covered(s, fr, m) by {
+            assert(sl[s] is Some);
+            assert(vx_claimed_by(s, fr, fr.len() as int, m, keys, keys.len() as int, 0));
+            if exists|j: int, q: int| 0 <= j < keys.len() && 0 <= q < m[keys[j]].length && (#[trigger] m[keys[j]].ids()[q]).index == s {
+                let (j, q) = choose|j: int, q: int| 0 <= j < keys.len() && 0 <= q < m[keys[j]].length && (#[trigger] m[keys[j]].ids()[q]).index == s;
+                assert(keys.contains(keys[j]));
+                assert(vx_row_in(m, keys[j], q));
+            }
+        }
+    }
+}
 '''
 
 
@@ -327,6 +571,7 @@ L2_STEP = r"""proof {
 END_PROOF = r"""proof {
             assert(vx_keys1@.take(vx_keys1@.len() as int) =~= vx_keys1@);
             lemma_de_end(vx_sl, vx_fr, vx_m, vx_keys1@, Allocator::<R> { slots: vx_slots, free: vx_free });
+            lemma_ok_parts_valid(vx_sl, vx_fr, vx_m, vx_keys1@);
         }"""
 
 
@@ -367,6 +612,8 @@ def build():
                     ("C13.deserialize.tables_agree", "r is Ok ==> forall|k: archetype::IdentifierRef<R>| archetypes@.dom().contains(k) ==> (#[trigger] archetypes@[k]).agrees(&r->Ok_0)"),
                     ("C13.deserialize.ids_stored", "r is Ok ==> vx_de_ids_stored(archetypes@, &r->Ok_0)"),
                     ("C13.deserialize.count", "r is Ok ==> r->Ok_0.active_count() == vx_total_rows(archetypes@)"),
+                    ("C06.deserialize.accepts_valid", "vx_valid_parts(length as int, free@, archetypes@) ==> r is Ok"),
+                    ("C11.deserialize.rejects_invalid", "r is Ok ==> vx_valid_parts(length as int, free@, archetypes@)"),
                     ("C06.deserialize.slots_len", "r is Ok ==> r->Ok_0.slots@.len() == length"),
                     ("C06.deserialize.free_order", "r is Ok ==> r->Ok_0.free@.len() == free@.len() && forall|j: int| 0 <= j < free@.len() ==> r->Ok_0.free@[j] == (#[trigger] free@[j]).index"),
                     ("C06.deserialize.free_generations", "r is Ok ==> forall|j: int| 0 <= j < free@.len() ==> (#[trigger] free@[j]).index < length && r->Ok_0.slots@[free@[j].index as int].generation == free@[j].generation"),
@@ -413,12 +660,13 @@ def build():
                Hint("start", "let ghost vx_m = archetypes@; let ghost vx_fr = free@; let ghost mut vx_c: int = 0; let ghost mut vx_pre = Seq::<Option<Slot<R>>>::empty();"),
                Hint("after", "proof { lemma_opt_none(slots@); }", anchor=r"let mut slots = vx_vec_none::<Slot<R>>\(length\)"),
                Hint("before", "proof { assert(vx_keys1@.take(0).len() == 0); }", anchor=r"while vx_i1 < vx_n1"),
-               Hint("before", "proof { vx_pre = slots@; }", anchor=r"if entity_identifier\.index >= slots\.len\(\)", nth=0),
+               Hint("before", "proof { vx_pre = slots@; if entity_identifier.index >= slots@.len() { lemma_site_free_oob(length as int, vx_fr, vx_m, vx_c); } else if slots@[entity_identifier.index as int] is Some { lemma_site_free_dup(length as int, vx_fr, vx_m, vx_c, slots@); } }", anchor=r"if entity_identifier\.index >= slots\.len\(\)", nth=0),
                Hint("after", L1_STEP, anchor=r"slots\.set\(entity_identifier\.index", nth=0),
                Hint("after", "proof { assert(vx_keys1@.contains(vx_keys1@[vx_i1 as int])); assert(vx_m.dom().contains(vx_keys1@[vx_i1 as int])); assert(archetype.wf()); }", anchor=r"let archetype = archetypes\.raw_archetypes\.vx_nth\(vx_i1, vx_keys1\)"),
-               Hint("before", "proof { vx_pre = slots@; assert(vx_keys1@.contains(vx_keys1@[vx_i1 as int])); assert(vx_m.dom().contains(vx_keys1@[vx_i1 as int])); assert(archetype.wf()); assert(archetype.ids()[i as int] == archetype.entity_identifiers@[i as int]); }", anchor=r"if entity_identifier\.index >= slots\.len\(\)", nth=1),
+               Hint("before", "proof { vx_pre = slots@; assert(vx_keys1@.contains(vx_keys1@[vx_i1 as int])); assert(vx_m.dom().contains(vx_keys1@[vx_i1 as int])); assert(archetype.wf()); assert(archetype.ids()[i as int] == archetype.entity_identifiers@[i as int]); assert(vx_row_in(vx_m, vx_keys1@[vx_i1 as int], i as int)); if entity_identifier.index >= slots@.len() { lemma_site_row_oob(length as int, vx_fr, vx_m, vx_keys1@[vx_i1 as int], i as int); } else if slots@[entity_identifier.index as int] is Some { lemma_site_row_dup(length as int, vx_fr, vx_m, vx_keys1@, vx_i1 as int, i as int); } }", anchor=r"if entity_identifier\.index >= slots\.len\(\)", nth=1),
                Hint("before", L3_STEP, anchor=r"i \+= 1;", nth=0),
                Hint("before", L2_STEP, anchor=r"vx_i1 \+= 1;"),
+               Hint("before", "proof { if slots@[i as int] is None { lemma_site_missing(length as int, vx_fr, vx_m, vx_keys1@, slots@, i as int); } }", anchor=r"if slot\.is_none\(\)"),
                Hint("after", "proof { vx_c = 0; }", anchor=r"let mut vx_slots: Vec<Slot<R>> = Vec::new\(\)"),
                Hint("after", "proof { vx_c = vx_c + 1; }", anchor=r"vx_slots\.push\(slot\.unwrap\(\)\)"),
                Hint("after", "proof { vx_c = 0; }", anchor=r"let mut vx_free: VecDeque<usize> = VecDeque::new\(\)"),
